@@ -331,3 +331,83 @@ Fixpoint ops_ok (f : fs) (ops : list op) : Prop :=
   | [] => True
   | o :: r => op_names_ok o = true /\ op_ok f o = true /\ ops_ok (apply_op f o) r
   end.
+
+(* ---------------------------------------------------------------- the unrestricted law is false *)
+(* the law one would like for batches of several operations, coalesced or not, processed when all
+   operations are done (oracles of the final tree) *)
+Definition fsevents_batched_full : Prop :=
+  forall stat_ino walk sub root ops view f,
+  root <> [] -> last_is_sep root = false -> wf_fs f -> ops_ok f ops ->
+  let final := fold_left apply_op ops f in
+  (forall p, stat_ino (abspath root p) = match lookup final p with Some e => Some (e_ino e) | None => None end) ->
+  (forall p, walk (abspath root p) = sub p) -> (forall p, wf_tree (sub p) = true) ->
+  (forall p, Permutation (map (fun x => (snd x, fst x)) (desc [] (sub p))) (below final p)) ->
+  (forall i, mem i view = true -> ino_used f i = true) ->
+  forall natives, natives = batch_natives root f ops \/ natives = coalesce_all (batch_natives root f ops) ->
+  exists out v s es, queue_events stat_ino walk true root view natives = Some (out, v, s) /\
+    out = map (render root) es /\
+    Permutation (replay (view_of f) es) (view_of final).
+
+Lemma beqb_sym a b : beqb a b = beqb b a.
+Proof.
+  destruct (beqb a b) eqn:E1, (beqb b a) eqn:E2; try reflexivity.
+  - apply beqb_eq in E1. subst. rewrite beqb_refl in E2. discriminate.
+  - apply beqb_eq in E2. subst. rewrite beqb_refl in E1. discriminate.
+Qed.
+
+Local Open Scope N_scope.
+
+(* "/r" + "/" + n1 + "/" + n2 ... compared with "/r/c" *)
+Lemma abs_eq_c p : beqb (abspath r_ p) (abspath r_ [nc]) = path_eqb [nc] p.
+Proof.
+  destruct p as [|n [|m rest]].
+  - reflexivity.
+  - unfold abspath, relsuffix, r_, nc. cbn [map concat app beqb]. rewrite !N.eqb_refl. cbn [andb].
+    rewrite app_nil_r. cbn [path_eqb]. rewrite andb_true_r. apply beqb_sym.
+  - unfold abspath, relsuffix, r_, nc. cbn [map concat app beqb path_eqb]. rewrite !N.eqb_refl. cbn [andb].
+    rewrite andb_false_r.
+    destruct n as [|c [|c' n']]; cbn [app beqb]; [reflexivity | now rewrite andb_false_r | now rewrite andb_false_r].
+Qed.
+
+Lemma abs_eq_root p : beqb (abspath r_ p) r_ = match p with [] => true | _ => false end.
+Proof. destruct p as [|n rest]; [reflexivity|]. unfold abspath, relsuffix, r_. cbn [map concat app beqb]. now rewrite !N.eqb_refl. Qed.
+
+Theorem fsevents_batched_full_refuted : ~ fsevents_batched_full.
+Proof.
+  intros H.
+  set (f := [Entry [na] KFile 7]).
+  set (ops := [ORename [na] [nb]; ORename [nb] [nc]]).
+  set (stat := fun b : bytes => if beqb b (abspath r_ [nc]) then Some 7 else None).
+  set (sub := fun p : path => match p with [] => Node [] [nc] | _ => Node [] [] end).
+  set (walk := fun b : bytes => if beqb b r_ then Node [] [nc] else Node [] []).
+  specialize (H stat walk sub r_ ops [] f).
+  destruct H with (natives := coalesce_all (batch_natives r_ f ops)) as (out & v & s & es & E & Eo & P).
+  - discriminate.
+  - reflexivity.
+  - split; [repeat constructor; intros []|]. intros e [<-|[]]. split; [discriminate | now left].
+  - cbn [ops_ok]. repeat split; reflexivity.
+  - intros p. unfold stat. rewrite abs_eq_c.
+    change (fold_left apply_op ops f) with [Entry [nc] KFile 7].
+    unfold lookup. cbn [find e_path]. destruct (path_eqb [nc] p); reflexivity.
+  - intros p. unfold walk, sub. rewrite abs_eq_root. destruct p; reflexivity.
+  - intros p. unfold sub. destruct p; reflexivity.
+  - intros p. change (fold_left apply_op ops f) with [Entry [nc] KFile 7].
+    unfold sub, below. cbn [flat_map e_path e_kind app].
+    destruct p as [|n [|m rest]].
+    + vm_compute. apply Permutation_refl.
+    + cbn [under desc map]. rewrite andb_true_r. cbn [path_eqb]. rewrite andb_true_r.
+      rewrite (beqb_sym nc n). destruct (beqb n nc); cbn [negb andb]; constructor.
+    + cbn [under desc map]. rewrite andb_false_r. cbn [andb]. constructor.
+  - intros i Hi. discriminate.
+  - now right.
+  - (* the emitter's answer is determined; whatever [es] renders to it replays to two entries *)
+    assert (Eq : queue_events stat walk true r_ [] (coalesce_all (batch_natives r_ f ops))
+                 = Some ([Moved KFile (abspath r_ [na]) (abspath r_ [nb]) false; Modified KDir r_; Modified KDir r_;
+                          Created KFile (abspath r_ [nc]) false; Modified KDir r_], [7], false)) by (vm_compute; reflexivity).
+    rewrite Eq in E. injection E as Eout Ev Es. rewrite <- Eout in Eo. clear Eq.
+    destruct es as [|e1 [|e2 [|e3 [|e4 [|e5 [|e6 es]]]]]]; try discriminate.
+    cbn [map] in Eo. inversion Eo as [[E1 E2 E3 E4 E5]].
+    destruct e1; try discriminate. destruct e2; try discriminate. destruct e3; try discriminate.
+    destruct e4; try discriminate. destruct e5; try discriminate.
+    apply Permutation_length in P. cbn in P. discriminate.
+Qed.
